@@ -211,3 +211,166 @@ func verdictStream(seed uint64, n int) {
 }
 
 var _ = cpu.Model6502
+
+// ---------------------------------------------------------------------------------------
+// C08: every test case starts from the same machine
+
+type dirtyCase struct {
+	name   string
+	driver []byte
+	script string
+}
+
+func dirtyPool(spec string, trap bool) []dirtyCase {
+	hi := "0x4000"
+	if spec == "Linear16K" {
+		hi = "0x2000"
+	}
+	long := ""
+	switch {
+	case strings.HasPrefix(spec, "XSixteen"):
+		long = "write_byte_long(0xA000 + 5*8192 + 7, 0x77); write_byte(0, 9); write_byte(1, 3); write_byte(0xA010, 0x55); write_byte(0xC010, 0x66)"
+	case strings.HasPrefix(spec, "GeoRam"):
+		long = "write_byte(0xDFFE, 3); write_byte(0xDFFF, 2); write_byte(0xDE10, 0x44); write_byte_long(0x10000 + 999, 0x21)"
+	case strings.HasPrefix(spec, "F256"):
+		long = "write_byte(0, 0x80); write_byte(9, 0x22); write_byte(0, 0x01); write_byte(1, 2); write_byte(0xC000, 0x33); write_byte_long(0x80000, 0x12)"
+	}
+	trapFn := ""
+	if trap {
+		trapFn = "function trap(c) set_xreg(c) end\n"
+	}
+	return []dirtyCase{
+		{"clean", prg(0x0800, 0xE8, 0x00), "function arrange() end\nfunction assert() return get_xreg() == 1 end\n" + trapFn},
+		{"regs", prg(0x0800, 0xA9, 0x55, 0xA2, 0x66, 0xA0, 0x77, 0x9A, 0x38, 0xF8, 0x00),
+			"function arrange() set_accu(1) set_flags('NV-BDIZC') set_sp(0x10) end\nfunction assert() return true end\n" + trapFn},
+		{"memory", prg(0x0800, 0xA9, 0xEE, 0x8D, 0x00, 0x03, 0x8D, 0x00, 0x10, 0xEE, 0x00, 0x10, 0x00),
+			"function arrange() set_memory(" + hi + ", 'deadbeef') " + long + " end\nfunction assert() return true end\n" + trapFn},
+		{"iter", prg(0x0800, 0xE8, 0xE8, 0x00),
+			"function num_iterations() return 3 end\nfunction arrange() set_pc(load_address) end\nfunction assert() return true end\n" + trapFn},
+		{"failing", prg(0x0800, 0xA9, 0x99, 0x8D, 0x50, 0x03, 0x02),
+			"function arrange() write_byte(0x0350, 1) end\nfunction assert() return false end\n" + trapFn},
+		{"trapuser", prg(0x0800, 0xA9, 0x42, 0x8D, 0x00, 0x7F, 0x00),
+			"function arrange() end\nfunction trap(c) write_byte(0x0360, c) set_yreg(c) end\nfunction assert() return true end\n"},
+	}
+}
+
+// observe: the complete observable state of the machine a case is given
+func observe(spec string, c *cpu.CPU6502, trapAddr uint16, trap bool) string {
+	var b strings.Builder
+	fmt.Fprintf(&b, "pc=%04x sp=%02x a=%02x x=%02x y=%02x p=%02x cyc=%d", c.PC, c.SP, c.A, c.X, c.Y, c.Flags, c.NumCycles())
+	b.WriteString(" S")
+	sweepStats(&b, spec, c.Mem)
+	b.WriteString(" D")
+	b.WriteString(imageOf(spec, c.Mem))
+	if trap {
+		// a handler left over from an earlier case would swallow this store (or crash on a closed Lua state)
+		leftover := false
+		if protect(func() {
+			c.Mem.Store(trapAddr, 0x5A)
+			leftover = c.Mem.Load(trapAddr) != 0x5A
+		}) {
+			leftover = true
+		}
+		fmt.Fprintf(&b, " handler=%v", leftover)
+	}
+	return b.String()
+}
+
+func isolationRun(spec string, prexec, trap bool, dir string, cases []dirtyCase) ([]string, []string) {
+	trapAddr := uint16(0x7F00)
+	if spec == "Linear16K" {
+		trapAddr = 0x3F00
+	}
+	fa := &fakeAsm{bins: map[string]string{}}
+	for _, dc := range cases {
+		fa.bins[dc.name+".a"] = writeFile(dir, dc.name+".bin", dc.driver)
+		writeFile(dir, dc.name+".lua", []byte(dc.script))
+	}
+	fa.bins["setup.a"] = writeFile(dir, "setup.bin", prg(0x0900, 0xA9, 0xAB, 0x8D, 0x00, 0x02, 0xA2, 0x07, 0x00))
+	cfg := emuconfig.DefaultConfig()
+	cfg.MemSpec = spec
+	cfg.Model = "65C02"
+	repo, _ := verifier.NewCaseRepo(dir, "")
+	ce := caseexec.NewCaseExec(cfg, fakeAsmProv{fa}, repo, false)
+	var outBuf strings.Builder
+	ce.Outf = &outBuf
+	if trap {
+		ce.SetTrapAddress(trapAddr)
+	}
+	if prexec {
+		if err := ce.ExecuteSetupProgram("setup.a"); err != nil {
+			panic(err)
+		}
+	}
+	starts := []string{}
+	fa.onAsm = func(name string) {
+		if name != "setup.a" {
+			starts = append(starts, observe(spec, ce.CurrentCpu, trapAddr, trap))
+		}
+	}
+	results := []string{}
+	for _, dc := range cases {
+		tc := &verifier.TestCase{Name: dc.name, TestDriverSource: dc.name + ".a", TestScript: dc.name + ".lua"}
+		outBuf.Reset()
+		var err error
+		if protect(func() { err = ce.ExecuteCase(dc.name, tc) }) {
+			results = append(results, "crash")
+			continue
+		}
+		results = append(results, fmt.Sprintf("%v|%s", err == nil, strings.TrimSpace(outBuf.String())))
+	}
+	return starts, results
+}
+
+func isolationCase(r *rng.R, dir string) string {
+	spec := memSpecs[r.Intn(len(memSpecs))]
+	if r.Chance(40) {
+		spec = []string{"Linear32K", "Linear16K", "XSixteen512K", "GeoRam_512K", "F256_512K"}[r.Intn(5)]
+	}
+	prexec, trap := r.Bool(), r.Bool()
+	pool := dirtyPool(spec, trap)
+	if !trap {
+		pool = pool[:5]
+	}
+	k := 2 + r.Intn(3)
+	cases := []dirtyCase{}
+	for i := 0; i < k; i++ {
+		cases = append(cases, pool[r.Intn(len(pool))])
+	}
+	starts, results := isolationRun(spec, prexec, trap, dir, cases)
+	eq := []string{}
+	for i, dc := range cases {
+		soloStart, soloRes := isolationRun(spec, prexec, trap, dir, []dirtyCase{dc})
+		s := "1"
+		if i >= len(starts) || len(soloStart) != 1 || starts[i] != soloStart[0] {
+			s = "0"
+		}
+		v := "1"
+		if i >= len(results) || len(soloRes) != 1 || results[i] != soloRes[0] {
+			v = "0"
+		}
+		eq = append(eq, s+v)
+	}
+	names := []string{}
+	for _, dc := range cases {
+		names = append(names, dc.name)
+	}
+	count("isolation." + spec)
+	pe, tr := 0, 0
+	if prexec {
+		pe = 1
+	}
+	if trap {
+		tr = 1
+	}
+	return fmt.Sprintf("isolation %s %d %d %s => %s", spec, pe, tr, strings.Join(names, ","), strings.Join(eq, ","))
+}
+
+func isolationStream(seed uint64, n int) {
+	r := rng.New(seed + 808)
+	dir := tmpDir()
+	defer os.RemoveAll(dir)
+	for i := 0; i < n; i++ {
+		emit(isolationCase(r, dir))
+	}
+}
